@@ -214,6 +214,14 @@ static void op_golden_resave(Exec& x, const Json& op, int)
 	std::string what = "reference array " + x.vars["golden_file"].s + ": " + s.cmd;
 	for (auto& o : s.opts) what += " " + o;
 	if (r.exit_code == SIM_EXIT_DEADLOCK || r.exit_code == SIM_EXIT_STEPS || r.harness_error) return;
+	if (r.exit_code != 0 && r.err.find("nsufficient parity space") != std::string::npos && x.sb.cfg.parity_limit) {
+		// a reference array with size-limited parity splits has no room for the new files: the documented refusal; the
+		// user adds space (here: the limit goes) and runs the command again
+		x.probe("golden.parity_limit_lifted");
+		x.sb.cfg.parity_limit = 0;
+		x.sb.write_conf();
+		r = x.cmd(s);
+	}
 	if (r.exit_code != 0) { x.violation("C16", "reference-array-command-failed", what + strf(": exit %d: ", r.exit_code) + r.err.substr(0, 300)); return; }
 	std::vector<LoadedContent> cs1 = load_contents(x.sb);
 	const LoadedContent* l1 = first_good(cs1);
